@@ -9,7 +9,7 @@
 // kinds raft1 / kill / net (thorough): real raft.NewConsensus nodes on loopback libp2p hosts,
 // see raft.go.
 //
-//   C01 <kind> <nrep> <ops> <events> => <obs> ...       obs = res~applied~view~calls
+//	C01 <kind> <nrep> <ops> <events> => <obs> ...       obs = res~applied~view~calls
 package main
 
 import (
@@ -30,6 +30,7 @@ import (
 	"github.com/ipfs/ipfs-cluster/datastore/inmem"
 
 	hraft "github.com/hashicorp/raft"
+	cid "github.com/ipfs/go-cid"
 	rpc "github.com/libp2p/go-libp2p-gorpc"
 
 	"verifharness/common"
@@ -141,6 +142,25 @@ func opsTok(l []op) string {
 	return strings.Join(s, ";")
 }
 
+// undefIdx is the name of cid.Undef in op tokens: as the pin's cid, or as its reference (a pointer to
+// cid.Undef, what the first shard pin of a sharded add carried before /repo 9d8b946).
+const undefIdx = 63
+
+func pinOf(tok string) *api.Pin {
+	p := common.PinOf(tok)
+	f := strings.Split(tok, "/")
+	if len(f) >= 13 {
+		if f[0] == strconv.Itoa(undefIdx) {
+			p.Cid = cid.Undef
+		}
+		if f[12] == strconv.Itoa(undefIdx) {
+			u := cid.Undef
+			p.Reference = &u
+		}
+	}
+	return p
+}
+
 // tracing: the Consensus of the current case runs with Tracing enabled (LogOps carry a span context
 // and a tag map). Derived from the case itself so that a replay makes the same choice.
 var tracing bool
@@ -156,7 +176,7 @@ func (o op) encode() []byte {
 	if tracing {
 		enc = raft.VerifEncodeTracedOp
 	}
-	b, err := enc(common.PinOf(o.tok), t)
+	b, err := enc(pinOf(o.tok), t)
 	if err != nil {
 		panic(err)
 	}
@@ -523,6 +543,14 @@ func main() {
 		sc.Buffer(make([]byte, 1<<20), 1<<26)
 		for sc.Scan() {
 			f := strings.Fields(sc.Text())
+			if len(f) >= 4 && f[0] == "C01" && f[1] == "redir" {
+				if kind == "redir" {
+					if retries, err := strconv.Atoi(f[2]); err == nil && retries >= 0 && retries <= 5 {
+						runRedirCase(out, retries, strings.Split(f[3], ","))
+					}
+				}
+				continue
+			}
 			if len(f) < 5 || f[0] != "C01" {
 				continue
 			}
@@ -565,6 +593,18 @@ func main() {
 			r := root.Fork(uint64(k))
 			nrep, ops, events := genFSMCase(r, k, a.Tier)
 			runFSMCase(out, nrep, ops, events)
+		}
+	case "redir":
+		if n < 0 {
+			n = 3
+		}
+		for k := 0; k < n; k++ {
+			if a.Only >= 0 && k != a.Only {
+				continue
+			}
+			r := root.Fork(uint64(k) + 991)
+			retries, steps := genRedirCase(r, k)
+			runRedirCase(out, retries, steps)
 		}
 	default:
 		if n < 0 {
